@@ -95,6 +95,7 @@ type world struct {
 	onComplete    func(g int, m sim.Msg)
 	ctrlByHarness bool
 	bias          uint64
+	memPort       []sim.RemotePort // real memory controller ports (free-running runs)
 }
 
 func pmcName(g int) string     { return fmt.Sprintf("GPU[%d].PMC", g) }
@@ -107,6 +108,9 @@ func (w *world) gpuOfPort(p sim.RemotePort) int {
 	for g := 1; g <= w.n; g++ {
 		if p == w.rem[g].AsRemote() || p == w.ctrl[g].AsRemote() || p == w.lm[g].AsRemote() ||
 			string(p) == memPortName(g) || string(p) == cpPortName(g) {
+			return g
+		}
+		if w.memPort != nil && p == w.memPort[g] {
 			return g
 		}
 	}
@@ -137,6 +141,12 @@ func (w *world) noteReq(g int, m sim.Msg) {
 }
 
 func newWorldOn(rec *ab.Recorder, eng *ab.Engine, n int) *world {
+	return newWorldWith(rec, eng, eng, n, nil)
+}
+
+// newWorldWith builds n controllers on simEng. memPort (optional) names the memory controller port of
+// each GPU; without it the memories are scripted and every controller port gets a passive connection.
+func newWorldWith(rec *ab.Recorder, eng *ab.Engine, simEng sim.Engine, n int, memPort []sim.RemotePort) *world {
 	w := &world{rec: rec, eng: eng, n: n, count: map[string]int{}, want: map[string]int{}, abs: map[string]int{},
 		stats: map[string]int{}, ctrlByHarness: true}
 	rec.ResetIDs()
@@ -149,14 +159,19 @@ func newWorldOn(rec *ab.Recorder, eng *ab.Engine, n int) *world {
 	w.curOf = make([]*reqInfo, n+1)
 	for g := 1; g <= n; g++ {
 		finder := &mem.SinglePortMapper{Port: sim.RemotePort(memPortName(g))}
-		p := pmcpkg.NewPageMigrationController(pmcName(g), w.eng, finder, nil)
+		if memPort != nil {
+			finder.Port = memPort[g]
+		}
+		p := pmcpkg.NewPageMigrationController(pmcName(g), simEng, finder, nil)
 		w.pmcs[g] = p
 		w.ctrl[g], w.rem[g], w.lm[g] = p.GetPortByName("Control"), p.GetPortByName("Remote"), p.GetPortByName("LocalMem")
 		w.store[g] = map[uint64]byte{}
-		conn := ab.NewConn(fmt.Sprintf("Conn%d", g))
-		conn.PlugIn(w.ctrl[g])
-		conn.PlugIn(w.rem[g])
-		conn.PlugIn(w.lm[g])
+		if memPort == nil {
+			conn := ab.NewConn(fmt.Sprintf("Conn%d", g))
+			conn.PlugIn(w.ctrl[g])
+			conn.PlugIn(w.rem[g])
+			conn.PlugIn(w.lm[g])
+		}
 	}
 	for g := 1; g <= n; g++ {
 		w.hook(g)
@@ -705,6 +720,7 @@ func main() {
 	drvOut := flag.String("drvout", "", "driver-level trace output")
 	sys := flag.Bool("sys", false, "driver-level runs use real command processors and PMCs")
 	sysPMCOut := flag.String("syspmcout", "", "PMC-level trace of the system-level runs")
+	nreal := flag.Int("real", 0, "number of free-running runs on akita's SerialEngine, DirectConnection and ideal memory controllers")
 	drvGPUs := flag.Int("drvgpus", 2, "GPUs in driver-level runs")
 	drvLog2 := flag.Uint64("drvlog2", 12, "log2 page size in driver-level runs")
 	drvKind := flag.String("drvkind", "normal", "normal: environment keeps clear of the known driver defects; known: scenarios exhibiting them; wild: no restriction")
@@ -779,6 +795,10 @@ func main() {
 		traces++
 		w.random(rng, *reqs, fc, serial, fs)
 		w.finish()
+	}
+	for i := 0; i < *nreal; i++ {
+		runReal(rec, rng, *reqs, *maxChunks)
+		traces++
 	}
 	bw.Flush()
 	f.Close()
